@@ -35,6 +35,7 @@ import (
 //   chunk <i> <n>        deliver the next n bytes of upload i's source
 //   eof <i>              end upload i's source (flush happens if everything was delivered and valid)
 //   fail <i>             make upload i's source return an I/O error
+//   failw <i> <n> <j>    deliver n bytes of upload i's source while the j-th device write it causes fails
 
 type swInstr struct {
 	data []byte
@@ -87,6 +88,8 @@ type swResult struct {
 	detail      string
 	flushed     int
 	shared      int
+	failDead    int
+	failAlive   int
 }
 
 // swRun interprets a script on the real code. It returns the model lines with the implementation's replies and
@@ -249,6 +252,46 @@ func swRun(script []string) (res swResult) {
 			if u.done {
 				finish(i, u)
 			}
+		case len(w) == 4 && w[0] == "failw": // failw <i> <n> <j>: deliver n bytes while the j-th device write fails
+			i, e1 := strconv.Atoi(w[1])
+			n, e2 := strconv.Atoi(w[2])
+			j, e3 := strconv.Atoi(w[3])
+			if e1 != nil || e2 != nil || e3 != nil || i < 0 || i >= len(ups) || n <= 0 || j < 0 || ups[i].done {
+				continue
+			}
+			u := ups[i]
+			// never the completing chunk: the validating reader would hold it back until the end of the source
+			if n > len(u.data)-u.delivered-1 {
+				n = len(u.data) - u.delivered - 1
+			}
+			if n <= 0 {
+				continue
+			}
+			chunk := u.data[u.delivered : u.delivered+n]
+			u.delivered += n
+			count := 0
+			dev.FailWrite = func(int64, int) error {
+				count++
+				if count == j+1 {
+					return status.Error(codes.Internal, "device write failed")
+				}
+				return nil
+			}
+			u.instr <- swInstr{data: append([]byte(nil), chunk...)}
+			swWait(u)
+			dev.FailWrite = nil
+			res.lines = append(res.lines, fmt.Sprintf("sw-writefail %d %s %d", i, hx.Hex(chunk), j))
+			if u.done {
+				res.impl = append(res.impl, report()+" dead")
+				res.failDead++
+				finish(i, u)
+				if u.ok {
+					fail("an upload whose device write failed was acknowledged", fmt.Sprintf("upload %d", i))
+				}
+			} else {
+				res.impl = append(res.impl, report()+" alive")
+				res.failAlive++
+			}
 		case len(w) == 2 && (w[0] == "eof" || w[0] == "fail"):
 			i, e1 := strconv.Atoi(w[1])
 			if e1 != nil || i < 0 || i >= len(ups) || ups[i].done {
@@ -369,6 +412,14 @@ func swGen(r *hx.Rand) []string {
 		case r.Chance(1, 20):
 			script = append(script, fmt.Sprintf("fail %d", i))
 			u.left = -1
+		case r.Chance(1, 15) && u.left > 1:
+			n := r.PickInt(1, S, S+1, 2*S+1, u.left-1)
+			if n > u.left-1 {
+				n = u.left - 1
+			}
+			script = append(script, fmt.Sprintf("failw %d %d %d", i, n, r.Intn(3)))
+			// the upload may or may not survive: afterwards the generator treats it as gone
+			u.left = -1
 		default:
 			n := r.PickInt(1, 1, S-1, S, S+1, 2*S+1, u.left, u.left, 1+r.Intn(u.left))
 			if n <= 0 {
@@ -425,6 +476,8 @@ func sectorCase(run *hx.Run, model *hx.Model, name string, script []string) {
 	run.Case(script, res.shared > 0, model != nil)
 	run.CountN("sector:flushed-uploads", res.flushed)
 	run.CountN("sector:flushed-sharing-a-sector", res.shared)
+	run.CountN("sector:device-write-failed-upload-abandoned", res.failDead)
+	run.CountN("sector:device-write-fault-armed-but-no-write", res.failAlive)
 }
 
 func sectorCases(run *hx.Run, model *hx.Model, n int) {
